@@ -262,9 +262,39 @@ class Interp:
                 if attr in m2.functions:
                     return FuncRef(m2, m2.functions[attr])
             return ModAttr(base.name, attr)
+        if type(base).__name__ == "ExcValue":
+            return self.exc_attr(base.exc, attr)
         if isinstance(base, PyObj):
             raise Unsupported("attribute of %s" % type(base).__name__)
         return self.attr_of(base, attr, env, node)
+
+    def exc_attr(self, e, attr):
+        """`exc.attr` for an exception caught with `except T as exc`: (1) the keyword argument of that name given at the
+        raise site / the callee contract's raise_attrs (the same value clauses see as exc_<attr>; sound for exception
+        classes whose __init__ stores its keyword arguments under their own names - checked here on the class source);
+        (2) a class-level constant of the raised class or one of its bases.  Anything else is unsupported."""
+        if attr in e.kwargs_v:
+            info = self.index.cls(e.exc_type)
+            if info is not None:
+                owner, init = self.index.find_method(info, "__init__")
+                if init is not None:
+                    ok = any(isinstance(st, ast.Assign) and len(st.targets) == 1 and isinstance(st.targets[0], ast.Attribute) and st.targets[0].attr == attr
+                             and isinstance(st.targets[0].value, ast.Name) and st.targets[0].value.id == "self" and isinstance(st.value, ast.Name) and st.value.id == attr
+                             for st in init.body)
+                    if not ok:
+                        raise Unsupported("exception attribute %s.%s is not a stored constructor argument" % (e.exc_type, attr))
+            return e.kwargs_v[attr]
+        info = self.index.cls(e.exc_type)
+        while info is not None:
+            if attr in info.defaults:
+                return self.eval(info.defaults[attr], Env({}, info.module))
+            nxt = None
+            for b in info.bases:
+                nxt = self.index.cls(b, info.module)
+                if nxt is not None:
+                    break
+            info = nxt
+        raise Unsupported("attribute %s of a caught %s" % (attr, e.exc_type))
 
     def attr_of(self, base: V, attr, env, node=None):
         ty = base.ty
@@ -292,6 +322,9 @@ class Interp:
                 if attr in owner.properties:
                     return self.call_method(base, attr, [], {}, node)
                 return BoundMethod(base, ty.cls, attr)
+            tbl = self.dispatch_table(base, ty.cls, attr_m)  # constant table of bound methods (dispatch.py)
+            if tbl is not None:
+                return tbl
             raise Unsupported("unknown attribute %s.%s" % (ty.cls, attr))
         if ty in (TBytes, TStr) or isinstance(ty, (TList, TDict, TSet)):
             return BoundMethod(base, None, attr)
@@ -783,6 +816,8 @@ class Interp:
     # ---- subscripts
     def e_Subscript(self, node, env):
         base = self.eval(node.value, env)
+        if type(base).__name__ == "DispatchTable":
+            return self.table_subscript(base, self.evalv(node.slice, env), node)  # dispatch.py, S1
         if isinstance(base, PyObj):
             raise Unsupported("subscript of python object")
         if isinstance(node.slice, ast.Slice):
